@@ -388,7 +388,17 @@ def work_types(args):
                 n += 1
                 payload = fam.to_bytes(2, "big") + bytes((0xff, 0x80, 0x41)[i % 3] for i in range(L))
                 decode_message(rc.enc_msg(257, 0x80, 0, 1, 2, [rc.octets(264, b"h"), rc.enc_avp(257, payload, M)]), f"CER host-ip fam={fam} len={L}", out)
-                decode_avp(rc.enc_avp(257, payload, M), f"addr fam={fam} len={L}", out)
+                a = decode_avp(rc.enc_avp(257, payload, M), f"addr fam={fam} len={L}", out)
+                # an IPv4 / IPv6 address of the wrong size is malformed for its type: reading it raises the AVP decode error
+                if a is not None and fam in (1, 2) and L != {1: 4, 2: 16}[fam]:
+                    from diameter.message.avp import AvpDecodeError
+                    try:
+                        v = a.value
+                        out.append((f"avp.value-returns-for-wrong-size-address:family{fam}", f"family {fam} with {L} address octets: .value returned {v!r}"))
+                    except AvpDecodeError:
+                        pass
+                    except Exception as e:
+                        out.append((f"avp.value-raises:AvpAddress:{type(e).__name__}", f"family {fam} with {L} octets: {e}"))
     vs = {}
     for key, detail in out:
         vs.setdefault(key, [detail, 0])
